@@ -216,9 +216,14 @@ func runCase(c Case) (err error) {
 	var term *vt.Term
 	var sim tcell.SimulationScreen
 	switch c.Screen {
-	case "terminfo", "terminfo-latin1", "terminfo-svars":
+	case "terminfo", "terminfo-latin1", "terminfo-svars", "terminfo-iso2022jp":
 		var enc encoding.Encoding
-		if c.Screen == "terminfo-latin1" {
+		if c.Screen == "terminfo-iso2022jp" {
+			// a charset with shift states: the screen's one encoder is stateful in
+			// earnest (the reference terminal does not speak ISO-2022-JP, so the
+			// output is not interpreted on this screen)
+			os.Setenv("LC_ALL", "ja_JP.ISO-2022-JP")
+		} else if c.Screen == "terminfo-latin1" {
 			// an 8-bit locale: the screen's encoder is stateful and unencodable
 			// runes go through the ACS map and the fallback map
 			os.Setenv("LC_ALL", "en_US.ISO8859-1")
@@ -236,8 +241,10 @@ func runCase(c Case) (err error) {
 			staticVarForm(&ti)
 		}
 		tty = faketty.New(20, 6)
-		term = vt.New(20, 6, enc, vt.Profile{})
-		tty.Sink = func(b []byte) { term.Write(b) }
+		if c.Screen != "terminfo-iso2022jp" {
+			term = vt.New(20, 6, enc, vt.Profile{})
+			tty.Sink = func(b []byte) { term.Write(b) }
+		}
 		s, e = tcell.NewTerminfoScreenFromTtyTerminfo(tty, &ti)
 		if e != nil {
 			return fmt.Errorf("harness: %v", e)
@@ -348,8 +355,20 @@ wait:
 	}
 	stopPoller.Store(true)
 	pollerWG.Wait()
+	// Fini is a Screen method like the others: several goroutines may call it at once
 	fin := make(chan struct{})
-	go func() { defer catch("Fini"); s.Fini(); close(fin) }()
+	go func() {
+		var fw sync.WaitGroup
+		var gate sync.WaitGroup
+		gate.Add(1)
+		for k := 0; k < 3; k++ {
+			fw.Add(1)
+			go func() { defer fw.Done(); defer catch("Fini (three concurrent calls)"); gate.Wait(); s.Fini() }()
+		}
+		gate.Done()
+		fw.Wait()
+		close(fin)
+	}()
 	select {
 	case <-fin:
 	case <-pbt.After(10 * time.Second):
@@ -415,11 +434,17 @@ func TestProp(t *testing.T) {
 	item := 0
 	charsetSensitive := map[string]bool{"CanDisplay": true, "RegisterRuneFallback": true, "UnregisterRuneFallback": true}
 	emitters := map[string]bool{"Show": true, "Sync": true, "SetSize": true, "SetCursorStyle": true, "ShowCursor": true, "SetTitle": true, "SetClipboard": true, "SuspendResume": true, "SetContent": true}
-	for _, screen := range []string{"terminfo", "simulation", "terminfo-latin1", "terminfo-svars"} {
+	for _, screen := range []string{"terminfo", "simulation", "terminfo-latin1", "terminfo-svars", "terminfo-iso2022jp"} {
 		for i := range methods {
 			for j := i; j < len(methods); j++ {
 				if screen == "terminfo-latin1" && !pbt.Thorough() && !charsetSensitive[methods[i].name] && !charsetSensitive[methods[j].name] {
 					continue // quick: the 8-bit locale only for the methods that depend on it
+				}
+				if screen == "terminfo-iso2022jp" && !(methods[i].name == "CanDisplay" || methods[j].name == "CanDisplay") {
+					continue // the stateful charset matters to what shares the encoder with CanDisplay
+				}
+				if screen == "terminfo-iso2022jp" && !pbt.Thorough() && !(methods[i].name == "CanDisplay" && (methods[j].name == "CanDisplay" || methods[j].name == "Show" || methods[j].name == "Sync")) && !(methods[j].name == "CanDisplay" && (methods[i].name == "SetContent" || methods[i].name == "Show" || methods[i].name == "Sync")) {
+					continue
 				}
 				if screen == "terminfo-svars" && !pbt.Thorough() && !(emitters[methods[i].name] && emitters[methods[j].name]) {
 					continue // quick: the static-variable description only for pairs of methods that evaluate parameterized strings
@@ -437,7 +462,7 @@ func TestProp(t *testing.T) {
 			}
 		}
 	}
-	pbt.Exhaustive("all unordered pairs of the 34 listed Screen methods x {terminfo screen in a UTF-8 locale, SimulationScreen}; in an ISO8859-1 locale all pairs in thorough and the pairs involving CanDisplay / RegisterRuneFallback / UnregisterRuneFallback in quick; on a description whose parameterized strings go through terminfo static variables (process-wide state in the terminfo package) all pairs in thorough and the pairs of string-emitting methods in quick")
+	pbt.Exhaustive("all unordered pairs of the 34 listed Screen methods x {terminfo screen in a UTF-8 locale, SimulationScreen}; in an ISO8859-1 locale all pairs in thorough and the pairs involving CanDisplay / RegisterRuneFallback / UnregisterRuneFallback in quick; on a description whose parameterized strings go through terminfo static variables (process-wide state in the terminfo package) all pairs in thorough and the pairs of string-emitting methods in quick; in an ISO-2022-JP locale (an encoder with shift states) the pairs involving CanDisplay; every case ends with three concurrent Fini calls")
 	// generated larger sets
 	sets := pbt.NewSweep(t, "sets")
 	n := pbt.Pick(12, 200)
